@@ -385,7 +385,7 @@ var c07Letters = []string{
 // RunC07Hist is the history tier of C07: the Get stream after every step of every history.
 func RunC07Hist(rep *report.Report, tier string) {
 	depth := 3
-	ck := NewClock(tier, 100*time.Second, 20*time.Minute, 6)
+	ck := NewClock(tier, 100*time.Second, 20*time.Minute, 7)
 	if tier == "thorough" {
 		depth = 5
 	}
@@ -398,4 +398,7 @@ func RunC07Hist(rep *report.Report, tier string) {
 	}
 	o := &Options{Letters: letters, Checks: Checks{GetFold: true}}
 	Search(rep, "get-after-every-step/from-empty", o, depth, ck.Next())
+	// the second network instance is created after entries were installed in the default one and a Get had run
+	o = &Options{Letters: letters, Checks: Checks{GetFold: true}, LateVRF: true, Init: Alphabet("ADD nh1@D a", "ADD nhg1@D {1}", "ADD v4 p@D ->1")}
+	Search(rep, "get-after-every-step/network-instance-created-late", o, depth, ck.Next())
 }
